@@ -955,10 +955,19 @@ def fixup(op, d):
     return d
 
 
-def fail_key(op, n):
+# the Module delegate of the pairwise convolution query forwards its first two arguments swapped (the pinned test suite's own
+# call compensates for it, so it cannot be corrected): the tensor formulas reserve the pairwise buffer for min(a, b) result
+# limbs; on FFT64 with N <= 32 nothing else in their maximum covers the difference
+PAIRWISE_DELEGATE_KEY = "poulpy-hal/src/delegates/convolution.rs:cnv_pairwise_apply_dft_tmp_bytes:first-two-arguments-forwarded-swapped"
+PAIRWISE_DELEGATE_OPS = {"glwe_tensor_apply", "glwe_tensor_apply_add_assign", "glwe_tensor_square_apply"}
+
+
+def fail_key(op, n, be=""):
     """stable key of an exact-window failure: per operation for realistic rings; one class for N < 8"""
     if op == "split_mut":
         return "split_mut:len%64!=0"
+    if op in PAIRWISE_DELEGATE_OPS and 8 <= n <= 32 and fam(be) == "fft64":
+        return PAIRWISE_DELEGATE_KEY
     return f"{op}:exact-window" if n >= 8 else "ring-degree-below-8:exact-window"
 
 
@@ -1218,7 +1227,7 @@ def run(ctx):
                 if rrun == "take" and ev:
                     off, ln, rq = ev[-1]
                     genuine = align_off(c["mis"] + off) + rq > ln
-                fkey = fail_key(op, c["n"])
+                fkey = fail_key(op, c["n"], c["be"])
                 failing_ops_all.setdefault(fkey, set()).add(op)
                 if fkey not in failing_ops:
                     failing_ops[fkey] = {"case": hline(k, c), "implementation": hout[k], "model": mout[k],
